@@ -8,6 +8,8 @@ TABLE = {
     "C03": ("sim.scenarios.persist", "C03", "exploration", 3000, 300000),
     "C06": ("sim.scenarios.state", "C06", "exploration", 4000, 400000),
     "C07": ("sim.scenarios.keyfile", "SCENARIO", "exploration", 20000, 1500000),
+    "C08": ("sim.scenarios.crypto", "C08", "exploration", 8000, 1000000),
+    "C09": ("sim.scenarios.crypto", "C09", "exploration", 4000, 500000),
     "C10": ("sim.scenarios.persist", "C10", "exploration", 3000, 300000),
     "C12": ("sim.scenarios.state", "C12", "exploration", 4000, 400000),
     "C15": ("sim.scenarios.state", "C15", "exploration", 4000, 400000),
